@@ -35,7 +35,7 @@ def handleCrash (args : List String) : String :=
   | [cfg, _, _, fdesc] =>
     let kv := parseKV cfg
     let flush := parseBool (kvGet kv "flush" "f")
-    match (if fdesc.isEmpty then [] else fdesc.splitOn "|").mapM parseWFile with
+    match (if fdesc.isEmpty || fdesc == "-" then [] else fdesc.splitOn "|").mapM parseWFile with
     | none => "bad-files"
     | some files => joinWith ";" (showLog (effectLog flush files) 0 0 [])
   | _ => "bad-args"
